@@ -20,8 +20,9 @@ import concurrent.futures as cf
 import lib
 from lib import Ctx, WORK, VERIF
 
-DUMP = os.path.join(WORK, "dump")
 CW = os.path.join(WORK, "c14")
+# a private copy of the translator's text dump: other checks running in parallel rewrite work/dump while our runners read it
+DUMP = os.path.join(CW, "dump")
 AVM = os.path.join(VERIF, "ocaml", "_build", "avm_tree")
 NSH = 16
 SORT_OPS = ("sort", "sort_model", "cmp_kids")
@@ -49,8 +50,15 @@ def run_sides(avh, scripts, tag):
             f.write("".join(sh))
         files.append(p)
     cmds = [[avh, "tree", "run", DUMP, p] for p in files] + [[AVM, DUMP, p] for p in files]
+    def once(c):
+        r = lib.run(c, WORK, 1500)
+        for _ in range(2):          # a runner that died (e.g. while the machine was out of memory) is started again
+            if r[0] == 0:
+                break
+            r = lib.run(c, WORK, 1500)
+        return r
     with cf.ThreadPoolExecutor(max_workers=NSH) as ex:
-        res = list(ex.map(lambda c: lib.run(c, WORK, 1500), cmds))
+        res = list(ex.map(once, cmds))
     impl, model, errs = {}, {}, []
     for k, (rc, out, _) in enumerate(res):
         side = impl if k < len(files) else model
@@ -129,6 +137,14 @@ def run(tier, seed):
     os.makedirs(CW, exist_ok=True)
     import xmlcommon
     ok_tr, info = xmlcommon.translate_all(ctx)
+    import shutil
+    for attempt in range(3):
+        shutil.rmtree(DUMP, ignore_errors=True)
+        shutil.copytree(xmlcommon.DUMP, DUMP)
+        same = all(open(os.path.join(DUMP, f), "rb").read() == open(os.path.join(xmlcommon.DUMP, f), "rb").read()
+                   for f in os.listdir(DUMP))
+        if same:
+            break
 
     ctx.log("building Properties/C14.vo")
     ok, out, dt = lib.coq_make(["Properties/C14.vo"])
